@@ -55,6 +55,15 @@ def gen(rng, tier):
                 for fam, lab in [("arr", 0), ("marrd", 1)] + ([("marrdn", 1)] if len(sizes) == 2 else []):
                     out.append(Case("prod%d" % len(sizes), ty, fam, rng.choice(["own", "ref"]), list(sizes), nums,
                                     mdims=list(sizes) + [lab], tag="tiny_joint_base_rate"))
+        # dogmatic factors whose belief masses add up to the float just above 1 (accepted by the constructors): every
+        # joint projection lies a rounding residue below the product of the beliefs, the smallest quotient is negative
+        for sizes in [(2, 3), (3, 3), (4, 3), (4, 4), (2, 3, 2), (3, 2, 3), (3, 3, 3)]:
+            for i in range(6 if tier == "quick" else 300):
+                ws = [G.overfull_dogmatic(rng, ty, n) if n >= 3 else G.float_opinion(rng, ty, n, u=0.0) for n in sizes]
+                nums = sum((flat_op(w) for w in ws), [])
+                for fam, lab in [("arr", 0), ("marrd", 1)] + ([("marrdn", 1)] if len(sizes) == 2 else []):
+                    out.append(Case("prod%d" % len(sizes), ty, fam, rng.choice(["own", "ref"]), list(sizes), nums,
+                                    mdims=list(sizes) + [lab], tag="overfull_dogmatic_product"))
         for n0 in (2, 3):
             for n1 in (2, 3):
                 for n2 in (2, 3):
@@ -125,6 +134,8 @@ def predicates(c, ri, rm):
     kappa = max([1] + [1 / A[i] for i in pos])
     t = tol * min(kappa, 1 << 18)
     out = []
+    if u < 0:
+        out.append("the uncertainty of the product is negative (%r)" % vals[cells])
     e = wf_simplex_fail(b, u, t) or wf_dist_fail(a, tol)
     if e:
         out.append("product is not well-formed: " + e)
